@@ -780,6 +780,10 @@ func setDefs() {
 }
 
 func childMain(c *vkit.Ctx) {
+	if c.Child == "datadog" {
+		datadogChild(c)
+		return
+	}
 	setDefs()
 	vhook.Hook = hook
 	sig := make(chan os.Signal, 16)
@@ -865,7 +869,8 @@ func main() {
 	c.Rule("cases = exhaustive scripts over {ok,error,block,wrong-id} up to length L for 1-3 chunks x ack mode x {wait-then-stop, stop-after-feed} " +
 		"+ generated (script, chunks 1-30, stop step, maxDuration, SIGUSR1 step, ping faults, perturbation plan, GOMAXPROCS); " +
 		"non-trivial = a send or ACK read failed, an ACK named an unknown id, a chunk was sent more than once, a session was renewed, or a chunk was handed back; " +
-		"distinct = (script, chunks, mode, stop, maxDuration, observed event order)")
+		"distinct = (script, chunks, mode, stop, maxDuration, observed event order); stage datadog: the real Datadog client worker against a scripted local HTTP intake " +
+		"(every status 200..503, hang, close as the first answer; every non-2xx status for ever; random scripts): delivered only after a 2xx answer to a request carrying that chunk")
 	c.Assume("the scripted connection honours the ClosableClientConnection contract: Close() interrupts blocked calls, an in-order upstream acknowledges only completely received chunks")
 	c.Assume("with maxDuration == 0 the unknown-id ACK outcome is excluded from wait-for-confirmation cases (retransmission happens at session renewal)")
 	c.Assume("timeouts scaled uniformly (ack/send 40 ms, retry 2 ms, ping 15 ms, acker stop 80 ms, channel 3 s); deadlines firing after the script ended restart the progress window")
@@ -881,6 +886,7 @@ func main() {
 			Args: map[string]string{"lo": strconv.Itoa(p), "hi": strconv.Itoa(len(cases)), "step": strconv.Itoa(nproc)},
 			Env:  []string{fmt.Sprintf("GOMAXPROCS=%d", []int{1, 2, 4, 16}[p%4])}})
 	}
+	specs = append(specs, vkit.ChildSpec{Mode: "datadog", Tag: "datadog", Timeout: 30 * time.Minute})
 	for _, r := range c.RunChildren(specs, nproc) {
 		if r.Partial != nil {
 			c.Merge(*r.Partial)
@@ -894,7 +900,10 @@ func main() {
 				map[string]any{"case": r.LastCase, "stderr_tail": tail(r.Stderr, 6000)})
 		}
 	}
-	c.JudgeRaces([]string{"output/baseoutput/clientworker.go", "output/baseoutput/clientsession.go", "output/baseoutput/clientprovider.go", "base/chunkconsumer.go"})
+	c.JudgeRaces([]string{"output/baseoutput/clientworker.go", "output/baseoutput/clientsession.go", "output/baseoutput/clientprovider.go", "base/chunkconsumer.go",
+		"output/datadog/clientworker.go"})
+	c.Require("datadog_cases", 30)
+	c.Require("datadog_phase:retransmission", 10)
 	c.Require("phase:retransmission", 10)
 	c.Require("phase:leftover", 10)
 	c.Require("phase:ack-unknown-id", 5)
